@@ -87,6 +87,30 @@ func c17Generate(seed uint64, tier string, index int) json.RawMessage {
 		}
 		p.Universe = append(p.Universe, q)
 	}
+	// A feed lists its entries in the order the sequence comparison defines (that the two agree is property C20's
+	// subject, not this one's): a generated universe whose listing order and comparison order disagree (a low
+	// sequence that appears or changes in the middle of a back-fill can do that) is repaired by dropping first the
+	// low sequences, then the triggering sequences.
+	inOrder := func(u []c17Seq) bool {
+		for i := 0; i+1 < len(u); i++ {
+			for j := i + 1; j < len(u); j++ {
+				if !u[i].id().Before(u[j].id()) || u[j].id().Before(u[i].id()) {
+					return false
+				}
+			}
+		}
+		return true
+	}
+	if !inOrder(p.Universe) {
+		for i := range p.Universe {
+			p.Universe[i].Low = 0
+		}
+	}
+	if !inOrder(p.Universe) {
+		for i := range p.Universe {
+			p.Universe[i].Trig = 0
+		}
+	}
 	// announcers hand the universe out in batches, in feed order; completers finish them in any order
 	var announce []c17Op
 	for i := 0; i < n; {
